@@ -329,7 +329,9 @@ theorem updateTable_sdk (c : Client) (s : Sdk) (n : Bytes) (chs : List IndexChan
   | none => rfl
   | some t =>
     simp only
-    split <;> rfl
+    split
+    · rfl
+    · split <;> rfl
 
 theorem updateTable_noitem (f : Item → Item) (c : Client) (n : Bytes) (chs : List IndexChange) :
     mapOut f (updateTable c n chs).2 = (updateTable c n chs).2 := by
@@ -338,7 +340,9 @@ theorem updateTable_noitem (f : Item → Item) (c : Client) (n : Bytes) (chs : L
   | none => rfl
   | some t =>
     simp only
-    split <;> rfl
+    split
+    · rfl
+    · split <;> rfl
 
 /-- **C17**: away from the difference points, a v2 step is the v1 step with the returned
     items passed through the v2 output mapper, and leaves the same stored state -/
